@@ -87,11 +87,45 @@ pub fn plan(prop: &str) -> Option<Plan> {
             ],
             watchdog_s: 20,
         },
+        "C20" => Plan {
+            prop: "C20",
+            level: "fault_enumeration",
+            quick_runs: 1_500_000,
+            thorough_runs: 60_000_000,
+            chunk: 10_000,
+            builds: &[("checked", 1.0)],
+            rule: "one case = one seeded run of the I/O simulation over DER: a producer writes a stream of 1-8 items (write_identifier 4 classes x number < 31, write_length, write_boolean, write_integer_i64/u64 with values from the boundary families around 2^(7k), 2^(8k), i64/u64 extremes; typed BOOLEAN, INTEGER of all eight Rust widths and generated ENUMERATED types through DER::writer) into a pipe behind a FaultyWrite (short writes, EINTR), a consumer reads them back behind a FaultyRead (short reads, EINTR): every item equal, bytes consumed after item k == bytes produced up to item k, nothing remains. Modes per run: legal I/O only (60%), IO-CRASH@k on the writer (items complete before k must read back exactly), failing reader EOF@k / error@k (diagnostic), boolean content octet replaced by another non-zero octet (must read true), and fault-point enumeration (every byte offset for crash / EOF / error and chunk sizes 1..8 for streams <= 64 bytes). Non-trivial = at least one item written and read back; distinct = distinct event-log hash (stream bytes, per-item positions, crash points).",
+            real: &["BasicRead/BasicWrite blanket impls over io::Read/io::Write", "BasicReader/BasicWriter (DER::reader / DER::writer)", "generated ENUMERATED zoo types", "descriptor Integer<T, NoConstraint> / Boolean<NoConstraint>"],
+            stub: &["io::Read / io::Write objects (FaultyRead/FaultyWrite over an in-memory pipe)"],
+            assumptions: &[
+                "read_integer_i64/u64 are given the byte length the writer produced for that item (the primitives carry no length of their own)",
+                "under failing I/O (crash, EOF, hard error) only 'items that were completely written read back exactly' is asserted; everything else the property is silent about is a diagnostic",
+                "canonical DER form and tag numbers >= 31 are not checked (the property is round trip only)",
+            ],
+            watchdog_s: 20,
+        },
+        "C19" => Plan {
+            prop: "C19",
+            level: "exploration",
+            quick_runs: 600_000,
+            thorough_runs: 20_000_000,
+            chunk: 5_000,
+            builds: &[("checked", 1.0), ("dde", 1.0)],
+            rule: "one case = one seeded run of the C04 UPER scenario generator (1-4 zoo messages in one writer, 0-3 wire faults of swarm-selected kinds, optional cross-type decode; 25% of the cases with outcomes-only are fault-free) executed in TWO processes built differently: default features and +descriptive-deserialize-errors. Each emits per decode attempt: Ok + value-tree hash or Err + ErrorKind variant and payload hash (backtraces excluded) or panic site, reader position and length afterwards, whether bits_remaining() panicked. Oracle: the two outcome logs are identical line by line (and the per-chunk event-log hashes agree). Non-trivial = at least one decode attempt; distinct = distinct event-log hash.",
+            real: &["UperReader<Bits> built with and without feature descriptive-deserialize-errors", "UperWriter (producer)", "generated zoo types"],
+            stub: &["transport (in-memory wire + fault process)"],
+            assumptions: &[
+                "determinism of the simulator (one tape = one history) is what allows the same history to run in two processes; it is re-checked by the determinism resample of every run",
+                "error equality = ErrorKind variant + payload (Debug without backtraces); diagnostics content is not compared",
+            ],
+            watchdog_s: 20,
+        },
         _ => return None,
     })
 }
 
 /// ids of domain predicates the generators know about (DESIGN 6)
+static WANT_OUTCOMES: std::sync::atomic::AtomicBool = std::sync::atomic::AtomicBool::new(false);
 static HASH_SAMPLE: std::sync::atomic::AtomicU64 = std::sync::atomic::AtomicU64::new(1);
 
 pub const ALL_DOMAINS: &[&str] = &["D5", "D6", "D7", "D8", "D11", "D12", "D13", "D14"];
@@ -289,6 +323,10 @@ fn run_jobs(jobs: Vec<Job>, bins: &Bins, prop: &str, tier: Tier, seed: u64, lift
             if !lifted.is_empty() {
                 args.push("--lift".into());
                 args.push(lifted.join(","));
+            }
+            if WANT_OUTCOMES.load(std::sync::atomic::Ordering::Relaxed) {
+                args.push("--outcomes-out".into());
+                args.push(tmp.join(format!("o-{}-{}.txt", job.build, job.from)).display().to_string());
             }
             if want_samples && idx < 2 && w < 4 {
                 args.push("--samples".into());
@@ -489,6 +527,73 @@ fn read_hashes(p: &Path, distinct: &mut HashSet<u64>, shapes: &mut HashSet<u64>)
     }
 }
 
+/// C19: the outcome logs of the two builds must be identical line by line
+fn compare_outcomes(m: &mut Merged, tmp: &Path, runs: u64, chunk: u64) {
+    let mut from = 0;
+    let mut compared_lines = 0u64;
+    while from < runs {
+        let a = tmp.join(format!("o-checked-{from}.txt"));
+        let b = tmp.join(format!("o-dde-{from}.txt"));
+        let ta = std::fs::read_to_string(&a);
+        let tb = std::fs::read_to_string(&b);
+        match (ta, tb) {
+            (Ok(ta), Ok(tb)) => {
+                let mut ia = ta.lines();
+                let mut ib = tb.lines();
+                loop {
+                    match (ia.next(), ib.next()) {
+                        (None, None) => break,
+                        (la, lb) if la == lb => compared_lines += 1,
+                        (la, lb) => {
+                            let run = la.or(lb).and_then(|l| l.split_whitespace().next()).and_then(|r| r.parse().ok()).unwrap_or(from);
+                            let class = |l: Option<&str>| -> String {
+                                match l {
+                                    None => "missing".to_string(),
+                                    Some(l) => {
+                                        if l.contains(" Ok(") {
+                                            "Ok".into()
+                                        } else if l.contains(" Panic(") {
+                                            "Panic".into()
+                                        } else {
+                                            l.split("Err(\"").nth(1).and_then(|r| r.split('#').next()).unwrap_or("Err").to_string()
+                                        }
+                                    }
+                                }
+                            };
+                            m.violations.push(FoundViolation {
+                                build: "dde".into(),
+                                run,
+                                signature: format!("C19/outcome-differs/default={}/feature={}", class(la), class(lb)),
+                                detail: format!("default build: {:?}; +descriptive-deserialize-errors: {:?}", la, lb),
+                                lanes: None,
+                            });
+                            break;
+                        }
+                    }
+                }
+            }
+            _ => {
+                // a chunk that ended abnormally in one build is reported through triage already
+            }
+        }
+        let _ = std::fs::remove_file(&a);
+        let _ = std::fs::remove_file(&b);
+        from += chunk;
+    }
+    m.counters.add("c19.outcome_lines_compared", compared_lines);
+    // the event-log hashes of the two builds must agree as well
+    let keys: Vec<(String, u64)> = m.chunk_hashes.keys().filter(|k| k.0 == "checked").cloned().collect();
+    for (_, from) in keys {
+        let a = m.chunk_hashes.get(&("checked".to_string(), from)).cloned();
+        let b = m.chunk_hashes.get(&("dde".to_string(), from)).cloned();
+        if let (Some(a), Some(b)) = (a, b) {
+            if a != b && !m.violations.iter().any(|v| v.signature.starts_with("C19/") && v.run >= from && v.run < from + chunk) {
+                m.violations.push(FoundViolation { build: "dde".into(), run: from, signature: "C19/event-log-hash-differs".into(), detail: format!("chunk from {from}: {a} vs {b}"), lanes: None });
+            }
+        }
+    }
+}
+
 fn slug(s: &str) -> String {
     let mut o = String::new();
     for c in s.chars() {
@@ -528,6 +633,73 @@ fn replay_file_in_child(bin: &Path, file: &Path, watchdog_s: u64) -> ReplayOutco
         },
         ChildEnd::Abnormal(class, _, tail) => ReplayOutcome { signature: None, detail: tail, event_hash: String::new(), events: vec![], scenario: vec![], abnormal: Some(class) },
     }
+}
+
+/// C19 replay: the run is executed by both builds and the outcome logs are compared
+fn replay_c19(bins: &Bins, file: &Path, tmp: &Path) -> ReplayOutcome {
+    let text = std::fs::read_to_string(file).unwrap_or_default();
+    let j = J::parse(&text).unwrap_or(J::Null);
+    let seed = j.get("seed").and_then(J::as_u64).unwrap_or(1);
+    let run = j.get("run").and_then(J::as_u64).unwrap_or(0);
+    let tier = j.get("tier").and_then(J::as_str).unwrap_or("quick").to_string();
+    let lifted: Vec<String> = j.get("lift").and_then(J::as_arr).map(|a| a.iter().filter_map(|x| x.as_str().map(str::to_string)).collect()).unwrap_or_default();
+    let _ = std::fs::create_dir_all(tmp);
+    let mut outs = Vec::new();
+    let mut hashes = Vec::new();
+    for b in ["checked", "dde"] {
+        let of = tmp.join(format!("replay-{b}-{}.txt", std::process::id()));
+        let mut args = vec!["worker".to_string(), "--prop".into(), "C19".into(), "--tier".into(), tier.clone(), "--seed".into(), seed.to_string(), "--from".into(), run.to_string(), "--to".into(), (run + 1).to_string(), "--outcomes-out".into(), of.display().to_string()];
+        if !lifted.is_empty() {
+            args.push("--lift".into());
+            args.push(lifted.join(","));
+        }
+        match spawn_worker(bins.get(b), &args, 4 * 1024 * 1024) {
+            ChildEnd::Ok(j) => hashes.push(j.get("chunk_hash").and_then(J::as_str).unwrap_or("").to_string()),
+            ChildEnd::Abnormal(c, _, t) => {
+                return ReplayOutcome { signature: None, detail: t, event_hash: String::new(), events: vec![], scenario: vec![], abnormal: Some(c) };
+            }
+        }
+        outs.push(std::fs::read_to_string(&of).unwrap_or_default());
+        let _ = std::fs::remove_file(&of);
+    }
+    let mut events = Vec::new();
+    let mut sig = None;
+    let mut detail = String::new();
+    let (a, b) = (&outs[0], &outs[1]);
+    let mut ia = a.lines();
+    let mut ib = b.lines();
+    loop {
+        match (ia.next(), ib.next()) {
+            (None, None) => break,
+            (la, lb) if la == lb => events.push(format!("both builds: {}", la.unwrap_or(""))),
+            (la, lb) => {
+                let class = |l: Option<&str>| -> String {
+                    match l {
+                        None => "missing".to_string(),
+                        Some(l) => {
+                            if l.contains(" Ok(") {
+                                "Ok".into()
+                            } else if l.contains(" Panic(") {
+                                "Panic".into()
+                            } else {
+                                l.split("Err(\"").nth(1).and_then(|r| r.split('#').next()).unwrap_or("Err").to_string()
+                            }
+                        }
+                    }
+                };
+                events.push(format!("default build: {:?}", la));
+                events.push(format!("+feature build: {:?}", lb));
+                sig = Some(format!("C19/outcome-differs/default={}/feature={}", class(la), class(lb)));
+                detail = format!("default build: {:?}; +descriptive-deserialize-errors: {:?}", la, lb);
+                break;
+            }
+        }
+    }
+    if sig.is_none() && hashes.len() == 2 && hashes[0] != hashes[1] {
+        sig = Some("C19/event-log-hash-differs".into());
+        detail = format!("{} vs {}", hashes[0], hashes[1]);
+    }
+    ReplayOutcome { signature: sig, detail, event_hash: hashes.join("/"), events, scenario: vec![format!("seed {seed} run {run}: scenario regenerated from the seed in both builds")], abnormal: None }
 }
 
 fn replay_signature(prop: &str, o: &ReplayOutcome) -> Option<String> {
@@ -615,7 +787,7 @@ fn replay_cmd(args: &[String], _root: &Path, bins: &Bins) -> i32 {
     let build = j.get("profile").and_then(J::as_str).unwrap_or("checked").to_string();
     let want_sig = j.get("signature").and_then(J::as_str).unwrap_or("").to_string();
     let want_hash = j.get("event_hash").and_then(J::as_str).unwrap_or("").to_string();
-    let o = replay_file_in_child(bins.get(&build), Path::new(file), 60);
+    let o = if prop == "C19" { replay_c19(bins, Path::new(file), &_root.join("sim/target/tmp")) } else { replay_file_in_child(bins.get(&build), Path::new(file), 60) };
     let got = replay_signature(&prop, &o);
     println!("replay of {file} (build {build})");
     for s in &o.scenario {
@@ -695,7 +867,7 @@ fn check(args: &[String], root: &Path, bins: &Bins) -> i32 {
         let path = root.join(rp);
         let text = std::fs::read_to_string(&path).unwrap_or_default();
         let build = J::parse(&text).ok().and_then(|j| j.get("profile").and_then(J::as_str).map(str::to_string)).unwrap_or_else(|| "checked".into());
-        let o = replay_file_in_child(bins.get(&build), &path, plan.watchdog_s);
+        let o = if prop == "C19" { replay_c19(bins, &path, &tmp) } else { replay_file_in_child(bins.get(&build), &path, plan.watchdog_s) };
         let sig = replay_signature(&prop, &o);
         let still = matches!(&sig, Some(s) if f.matches(s));
         known_reproduced.push(J::obj().with("id", J::str(f.id.clone())).with("replay", J::str(rp.clone())).with("still_fails", J::Bool(still)).with("signature", sig.clone().map(J::str).unwrap_or(J::Null)));
@@ -719,7 +891,13 @@ fn check(args: &[String], root: &Path, bins: &Bins) -> i32 {
         }
     }
     let njobs = jobs.len();
+    WANT_OUTCOMES.store(prop == "C19", std::sync::atomic::Ordering::Relaxed);
     let (mut m, distinct, shapes) = run_jobs(jobs, bins, &prop, tier, seed, &lifted, workers, &tmp, plan.watchdog_s, true);
+
+    if prop == "C19" {
+        compare_outcomes(&mut m, &tmp, runs, chunk);
+    }
+    WANT_OUTCOMES.store(false, std::sync::atomic::Ordering::Relaxed);
 
     // determinism resample: re-execute ~1% of the chunks (at least 2) and compare chunk hashes
     let mut resample_n = 0;
@@ -794,8 +972,11 @@ fn check(args: &[String], root: &Path, bins: &Bins) -> i32 {
             }
         }
         // replay twice in fresh processes: must reproduce signature and event-log hash
-        let o1 = replay_file_in_child(bin, &final_path, plan.watchdog_s);
-        let o2 = replay_file_in_child(bin, &final_path, plan.watchdog_s);
+        let (o1, o2) = if prop == "C19" {
+            (replay_c19(bins, &final_path, &tmp), replay_c19(bins, &final_path, &tmp))
+        } else {
+            (replay_file_in_child(bin, &final_path, plan.watchdog_s), replay_file_in_child(bin, &final_path, plan.watchdog_s))
+        };
         let s1 = replay_signature(&prop, &o1);
         let s2 = replay_signature(&prop, &o2);
         if s1.as_deref() != Some(v.signature.as_str()) || s1 != s2 || o1.event_hash != o2.event_hash {
@@ -928,6 +1109,8 @@ fn expected_probes(prop: &str) -> &'static [&'static str] {
     match prop {
         "C01" => &["back_to_back_stream>=2", "fragmented_length_seen"],
         "C04" => &["read_failed_then_accessors_called", "truncated_delivery", "EINTR_retried"],
+        "C19" => &["dde_error_carries_description", "fault_free_delivery_compared"],
+        "C20" => &["EINTR_retried_on_write", "EINTR_retried_on_read", "short_reads_inside_item", "items_survived_writer_crash", "torn_item_seen", "boolean_any_nonzero_octet_checked", "fault_point_enumeration_streams"],
         "C11" => &["bulk_copy_aligned_branch", "bulk_copy_unaligned_branch", "exact_fit_destination", "read_bit_at_exact_end"],
         _ => &[],
     }
